@@ -6,6 +6,7 @@ CONSTANTS
   MaxTape = 400
   Chunks = {"c1", "c2"}
   AttrVals = {1, 2}
+  RestartKinds = {}
   Handles = {}
   HandleFlags = {}
   MaxContent = 2
